@@ -27,7 +27,12 @@ RECURSIVE AtomsBelow(_, _)
 AtomsBelow(T, s) == UNION {IF Atomic(T, k) THEN {k} ELSE AtomsBelow(T, k) : k \in {x \in Inner(T) : T.parent[x] = s}}
 
 NOLABEL == <<78, 79, 76, 65, 66, 69, 76>>
-ExpLabel(T, i) == T.ridcps[i] \o <<58, 32>> \o (IF T.label[i] = <<-1>> THEN NOLABEL ELSE T.label[i])
+(* the label shown: graph_label() when the job's class provides one; otherwise *)
+(* "<id>: " followed by the label attribute, else text_label(), else NOLABEL  *)
+ExpLabel(T, i) ==
+  IF T.glabel[i] # <<-1>> THEN T.glabel[i]
+  ELSE T.ridcps[i] \o <<58, 32>> \o (IF T.label[i] # <<-1>> THEN T.label[i]
+                                      ELSE IF T.tlabel[i] # <<-1>> THEN T.tlabel[i] ELSE NOLABEL)
 
 (* requirement pairs <<job, requirement>> of the whole tree                 *)
 ReqPairs(T) == {<<j, r>> \in Inner(T) \X Inner(T) : r \in SetOf(T.req[j])}
